@@ -13,6 +13,12 @@ FP = ("float", "double")
 DIGITS = {"float": 24, "double": 53}
 PERIODS = [(1, 10 ** 9), (1, 10 ** 6), (1, 1000), (1, 1), (60, 1), (3600, 1), (86400, 1), (1, 60),
            (1001, 30000), (1, 1024), (3, 7)]
+# Periods that take part in (a)(b)(d) only (type-level records + round-trip sweep, not the pair sweep):
+# numerators / denominators beyond 2^31 and 2^32, a large prime and a prime above 2^32 (compile-time
+# factorisation), and non-reduced spellings (num, den, spelled num, spelled den): the duration type
+# duration<Rep, ratio<2,4>> is distinct from duration<Rep, ratio<1,2>> but has period ratio<1,2>.
+EXTRA_PERIODS = [(1, 10 ** 12), (1, 10 ** 18), (31556952000, 1), (10 ** 10, 3), (1, 1000003), (4294967311, 1),
+                 (1, 2, 2, 4), (60, 1, 120, 2)]
 NAMED = [("std::chrono::nanoseconds", (1, 10 ** 9)), ("std::chrono::microseconds", (1, 10 ** 6)),
          ("std::chrono::milliseconds", (1, 1000)), ("std::chrono::seconds", (1, 1)),
          ("std::chrono::minutes", (60, 1)), ("std::chrono::hours", (3600, 1))]
@@ -22,14 +28,19 @@ OPS = ["==", "!=", "<", "<=", ">", ">=", "+", "-"]
 class Dur:
     """One std::chrono::duration type of the quantifier."""
 
-    def __init__(self, rep, num, den, named=None):
+    extra = False
+
+    def __init__(self, rep, num, den, named=None, spell=None):
         assert gcd(num, den) == 1
+        sn, sd = spell or (num, den)          # how the ratio is spelled in the type (may be non-reduced)
+        assert Fr(sn, sd) == Fr(num, den)
         self.rep, self.num, self.den, self.named = rep, num, den, named
-        self.cpp = named or "std::chrono::duration<%s, std::ratio<%d, %d>>" % (rep, num, den)
-        self.name = named or "duration<%s,ratio<%d,%d>>" % (rep, num, den)
+        self.ratio_cpp = "std::ratio<%dLL, %dLL>" % (sn, sd)
+        self.cpp = named or "std::chrono::duration<%s, %s>" % (rep, self.ratio_cpp)
+        self.name = named or "duration<%s,ratio<%d,%d>>" % (rep, sn, sd)
         self.period = Fr(num, den)
         # the quantity the property calls "corresponding": seconds x Period, same rep
-        self.cq_unit = "decltype(au::Seconds{} * au::mag<%d>() / au::mag<%d>())" % (num, den)
+        self.cq_unit = "decltype(au::Seconds{} * au::mag<%dULL>() / au::mag<%dULL>())" % (num, den)
         self.cq = "au::Quantity<%s, %s>" % (self.cq_unit, rep)
 
     @property
@@ -39,6 +50,14 @@ class Dur:
 
 def durations():
     return [Dur(r, n, d) for r in REPS for (n, d) in PERIODS]
+
+
+def extra_durations():
+    """Static records + round trip only (never in the pair sweep)."""
+    out = [Dur(r, p[0], p[1], spell=p[2:] or None) for r in REPS for p in EXTRA_PERIODS]
+    for d in out:
+        d.extra = True
+    return out
 
 
 def named_durations():
@@ -54,15 +73,37 @@ TARGET_UNITS = [("Nano<Seconds>", "au::Nano<au::Seconds>", Fr(1, 10 ** 9)),
                 ("Seconds*3/7", "decltype(au::Seconds{} * au::mag<3>() / au::mag<7>())", Fr(3, 7))]
 
 
+# target reps beyond the four of the quantifier ("a quantity type" is unrestricted), on four of the units
+TARGET_REPS_X = ["uint64_t", "int16_t", "uint8_t", "long double"]
+TARGET_UNITS_X = ("Nano<Seconds>", "Seconds", "Hours", "Seconds*3/7")
+
+
 def targets():
-    return [("Quantity<%s,%s>" % (un, r), "au::Quantity<%s, %s>" % (uc, r), uf, r)
-            for (un, uc, uf) in TARGET_UNITS for r in REPS]
+    """All targets of (d); ids are positions in this list."""
+    return ([("Quantity<%s,%s>" % (un, r), "au::Quantity<%s, %s>" % (uc, r), uf, r)
+             for (un, uc, uf) in TARGET_UNITS for r in REPS] +
+            [("Quantity<%s,%s>" % (un, r), "au::Quantity<%s, %s>" % (uc, r), uf, r)
+             for (un, uc, uf) in TARGET_UNITS if un in TARGET_UNITS_X for r in TARGET_REPS_X])
+
+
+EXTRA_TARGET_UNITS = ("Nano<Seconds>", "Seconds", "Days")
+
+
+def targets_for(d, extra):
+    """Durations of EXTRA_PERIODS meet a reduced target set (3 units x {int32_t, int64_t, double} + uint64_t
+    and long double seconds): what is new about them is the size of the factor, not the target."""
+    T = targets()
+    if not extra:
+        return T
+    keep = set("Quantity<%s,%s>" % (u, r) for u in EXTRA_TARGET_UNITS for r in ("int32_t", "int64_t", "double"))
+    keep |= {"Quantity<Seconds,uint64_t>", "Quantity<Seconds,long double>"}
+    return [t for t in T if t[0] in keep]
 
 
 # ------------------------------------------------------------------ documented policy (info only)
 def policy_implicit(src_rep, k, dst_rep):
     """Au's documented implicit-conversion predicate for a same-dimension conversion by factor k."""
-    if dst_rep in FP:
+    if dst_rep in FP or dst_rep == "long double":
         return True
     if src_rep in FP:
         return False
@@ -91,17 +132,25 @@ def predicted_mixed_accept(a, b):
 
 
 # ------------------------------------------------------------------ static dump records
+# value categories as_quantity / the implicit constructor can be handed: rvalue (T = D), lvalue (D&),
+# const lvalue (const D&) and const rvalue (T = const D: std::move of a const object, a function
+# returning const D) - the last one is the only use of CorrespondingQuantity<const T>
+CATS = (("rv", "rvalue", "%s"), ("lv", "lvalue", "%s &"), ("cl", "const lvalue", "const %s &"),
+        ("crv", "const rvalue", "const %s"))
+
+
 def static_stmts(d, part):
     """part 'asq': what as_quantity(d) is; part 'acd': what as_chrono_duration(as_quantity(d)) is.
     (Separate records, so that one of them failing to compile cannot hide the other's read-out.)"""
     D = d.cpp
-    P = "std::ratio<%d, %d>" % (d.num, d.den)
+    P = "std::ratio<%dLL, %dLL>" % (d.num, d.den)     # the reduced ratio == D::period by [time.duration]
     out = []
     if part == "asq":
         out = ['vf_b("dur_rep_same", std::is_same<typename %s::rep, %s>::value);' % (D, d.rep),
-               'vf_b("dur_period_same", std::is_same<typename %s::period, typename %s::type>::value);' % (D, P)]
-    # the three value categories as_quantity can be called with (rvalue, lvalue, const lvalue)
-    for tag, arg in (("rv", D), ("lv", D + " &"), ("cl", "const " + D + " &")):
+               'vf_b("dur_period_same", std::is_same<typename %s::period, %s>::value && '
+               'std::is_same<typename %s::type, %s>::value);' % (D, P, d.ratio_cpp, P)]
+    for tag, _, pat in CATS:
+        arg = pat % D
         Q = "decltype(au::as_quantity(std::declval<%s>()))" % arg
         ACD = "decltype(au::as_chrono_duration(au::as_quantity(std::declval<%s>())))" % arg
         if part == "asq":
@@ -112,17 +161,19 @@ def static_stmts(d, part):
                 'vf_b("back_implicit_%s", std::is_convertible<%s, %s>::value);' % (tag, Q, D)]
         else:
             out += [
-                'vf_b("acd_period_same_%s", std::is_same<typename %s::period, typename %s::type>::value);' % (tag, ACD, P),
+                'vf_b("acd_period_same_%s", std::is_same<typename %s::period, %s>::value);' % (tag, ACD, P),
                 'vf_b("acd_rep_same_%s", std::is_same<typename %s::rep, %s>::value);' % (tag, ACD, d.rep)]
     return out
 
 
+ACC_FORMS = (("dur", "rvalue", "%s"), ("dur_lref", "lvalue", "%s &"), ("dur_clref", "const lvalue", "const %s &"),
+             ("dur_crv", "const rvalue", "const %s"))
+
+
 def accept_stmts(d, tq):
     """(d): is_convertible<D, Q> against is_convertible<Quantity<s*Period, Rep>, Q>."""
-    return ['vf_b("dur", std::is_convertible<%s, %s>::value);' % (d.cpp, tq),
-            'vf_b("dur_lref", std::is_convertible<%s &, %s>::value);' % (d.cpp, tq),
-            'vf_b("dur_clref", std::is_convertible<const %s &, %s>::value);' % (d.cpp, tq),
-            'vf_b("qty", std::is_convertible<%s, %s>::value);' % (d.cq, tq)]
+    return ['vf_b("%s", std::is_convertible<%s, %s>::value);' % (k, pat % d.cpp, tq) for k, _, pat in ACC_FORMS] + \
+           ['vf_b("qty", std::is_convertible<%s, %s>::value);' % (d.cq, tq)]
 
 
 # ------------------------------------------------------------------ probes
@@ -130,8 +181,30 @@ def roundtrip_probe(d):
     D = d.cpp
     return ("%s d{1}; auto q = au::as_quantity(d); auto q2 = au::as_quantity(%s{1}); %s back = q; "
             "auto acd = au::as_chrono_duration(q); decltype(q) qi = d; "
-            "(void)q.in(typename decltype(q)::Unit{}); (void)q2; (void)back; (void)acd; (void)qi;"
-            % (D, D, D))
+            "const %s cd{1}; auto q3 = au::as_quantity(std::move(cd)); decltype(q) qc = std::move(cd); "
+            "(void)q.in(typename decltype(q)::Unit{}); (void)q2; (void)back; (void)acd; (void)qi; (void)q3; (void)qc;"
+            % (D, D, D, D))
+
+
+def constexpr_probe(d):
+    """Compile-time use of every piece of the round trip and of the mixed operators on one type (a
+    static_assert that fails and a call that is not constexpr both reject the probe)."""
+    D = d.cpp
+    return ("constexpr %s d{1}; constexpr auto q = au::as_quantity(d); constexpr %s back = q; "
+            "constexpr auto acd = au::as_chrono_duration(q); constexpr decltype(q) qi = d; "
+            "static_assert(q.in(typename decltype(q)::Unit{}) == 1, \"\"); static_assert(back.count() == 1, \"\"); "
+            "static_assert(acd.count() == 1, \"\"); static_assert(qi == q, \"\"); "
+            "static_assert(q == d && d == q && !(q != d) && !(d != q), \"\"); "
+            "static_assert(q <= d && d <= q && q >= d && d >= q && !(q < d) && !(d < q) && !(q > d) && !(d > q), \"\"); "
+            "static_assert(au::as_chrono_duration(q + d).count() == 2 && au::as_chrono_duration(d + q).count() == 2, \"\"); "
+            "static_assert(au::as_chrono_duration(q - d).count() == 0 && au::as_chrono_duration(d - q).count() == 0, \"\");"
+            % (D, D))
+
+
+def implicit_target_probe(d, tqs):
+    """`Target t = d` and `Target t2 = as_quantity(d)` for targets whose is_convertible answers were true."""
+    return "%s d{1}; " % d.cpp + " ".join(
+        "{ %s t = d; %s t2 = au::as_quantity(d); (void)t; (void)t2; }" % (tq, tq) for tq in tqs)
 
 
 def mixed_probe(a, b, form):
@@ -150,18 +223,32 @@ def mixed_probe(a, b, form):
 # ------------------------------------------------------------------ run-time harness
 HARNESS = r'''
 #include "sweep.hh"
+#include <cmath>
+#include <cstring>
+#include <utility>
 namespace c17 {
 using vf::i128;
 using vf::u128;
 
 template <typename T> inline bool isnan_(T, std::false_type) { return false; }
 template <typename T> inline bool isnan_(T x, std::true_type) { return x != x; }
-template <typename T> inline bool same(T a, T b) {
-    return a == b || (isnan_(a, std::is_floating_point<T>{}) && isnan_(b, std::is_floating_point<T>{}));
+template <typename T> inline bool isnan_(T x) { return isnan_(x, std::is_floating_point<T>{}); }
+template <typename T> inline bool isinf_(T, std::false_type) { return false; }
+template <typename T> inline bool isinf_(T x, std::true_type) { return x == std::numeric_limits<T>::infinity() || x == -std::numeric_limits<T>::infinity(); }
+template <typename T> inline bool isinf_(T x) { return isinf_(x, std::is_floating_point<T>{}); }
+// "unchanged count": the same object representation (so -0.0 -> +0.0 is a change); NaN stays NaN
+template <typename T> inline bool same(T a, T b) {   // (x87 long double: 10 value bytes + 6 padding bytes)
+    const size_t n = std::is_floating_point<T>::value && sizeof(T) == 16 ? 10 : sizeof(T);
+    return std::memcmp(&a, &b, n) == 0 || (isnan_(a) && isnan_(b));
 }
+// "same answer": equal values (or both NaN)
+template <typename T> inline bool equal(T a, T b) { return a == b || (isnan_(a) && isnan_(b)); }
 template <typename T> inline std::string vstr(T v, std::false_type) { return vf::int_str(v); }
 template <typename T> inline std::string vstr(T v, std::true_type) {   // shortest exact decimal form
-    char b[64]; std::snprintf(b, sizeof b, sizeof(T) == 4 ? "%.9g" : "%.17g", (double)v); return b;
+    char b[64];
+    if (sizeof(T) > 8) std::snprintf(b, sizeof b, "%.21Lg", (long double)v);
+    else std::snprintf(b, sizeof b, sizeof(T) == 4 ? "%.9g" : "%.17g", (double)v);
+    return b;
 }
 template <typename T> inline std::string vstr(T v) { return vstr(v, std::is_floating_point<T>{}); }
 
@@ -178,11 +265,11 @@ template <typename D>
 void roundtrip(int id, const Iv *iv, int niv) {
     typedef typename D::rep R;
     unsigned long long evals = 0, viol = 0, nans = 0;
-    int shown[5] = {0, 0, 0, 0, 0};
+    int shown[7] = {0, 0, 0, 0, 0, 0, 0};
     for (int k = 0; k < niv; ++k) {
         for (i128 v = iv[k].lo; v <= iv[k].hi; ++v) {
             const R x = iv[k].kind ? from_bits(v, R{}) : from_int<R>(v);
-            const bool nan = isnan_(x, std::is_floating_point<R>{});
+            const bool nan = isnan_(x);
             nans += nan;
             const D d{x};
             const auto q = au::as_quantity(d);
@@ -191,6 +278,9 @@ void roundtrip(int id, const Iv *iv, int niv) {
             const D back = q;                                  // implicit conversion back
             const auto acd = au::as_chrono_duration(q);
             const Q qi = d;                                    // duration implicitly accepted
+            const D cd{x};
+            const auto qc = au::as_quantity(std::move(cd));    // const rvalue: T = const D
+            const Q qic = std::move(cd);
             ++evals;
             const char *kind = nullptr; int slot = 0; R got = R{};
             if (!same(q.in(typename Q::Unit{}), d.count())) { kind = "count"; slot = 0; got = q.in(typename Q::Unit{}); }
@@ -198,6 +288,8 @@ void roundtrip(int id, const Iv *iv, int niv) {
             else if (!same(back.count(), d.count()) || (!nan && !(back == d))) { kind = "back-implicit"; slot = 2; got = back.count(); }
             else if (!same(acd.count(), d.count()) || (!nan && !(acd == d))) { kind = "back-as_chrono_duration"; slot = 3; got = acd.count(); }
             else if (!same(qi.in(typename Q::Unit{}), d.count())) { kind = "implicit-accept-value"; slot = 4; got = qi.in(typename Q::Unit{}); }
+            else if (!same(qc.in(typename Q::Unit{}), d.count())) { kind = "count-const-rvalue"; slot = 5; got = qc.in(typename Q::Unit{}); }
+            else if (!same(qic.in(typename Q::Unit{}), d.count())) { kind = "implicit-accept-const-rvalue"; slot = 6; got = qic.in(typename Q::Unit{}); }
             if (kind) {
                 ++viol;
                 if (shown[slot]++ < 3)
@@ -210,22 +302,95 @@ void roundtrip(int id, const Iv *iv, int niv) {
     std::fflush(stdout);
 }
 
+// ---- (d) value: `Target t = d` against `Target t2 = as_quantity(d)` (and the exact value) -------
+// N/Dn = Period / unit of the target.  Executed only where the conversion has no undefined
+// behaviour: integral target <- integral source needs Dn == 1 and x*N inside the target's range
+// (then t must also equal x*N exactly); a floating target takes every x.
+template <typename T, bool FP = std::is_floating_point<T>::value>
+struct Fits { static bool ok(i128 v) { return v >= (i128)std::numeric_limits<T>::min() && v <= (i128)std::numeric_limits<T>::max(); } };
+template <typename T> struct Fits<T, true> { static bool ok(i128) { return true; } };
+
+struct TgtRes { bool skipped, bad; std::string x, got, want; };
+// the enumeration is ordinary code; only one(kind, v) is instantiated per (duration, target)
+inline void implicit_target_loop(void (*one)(int, i128, bool, TgtRes &), int id, int tid, const Iv *iv, int niv) {
+    unsigned long long evals = 0, viol = 0, skipped = 0;
+    int shown = 0;
+    TgtRes r;
+    for (int k = 0; k < niv; ++k) {
+        for (i128 v = iv[k].lo; v <= iv[k].hi; ++v) {
+            one(iv[k].kind, v, false, r);
+            if (r.skipped) { ++skipped; continue; }
+            ++evals;
+            if (!r.bad) continue;
+            ++viol;
+            if (shown++ < 3) {
+                one(iv[k].kind, v, true, r);
+                std::printf("V {\"inst\":%d,\"tgt\":%d,\"kind\":\"implicit-target-value\",\"x\":\"%s\",\"got\":\"%s\",\"want\":\"%s\",\"ik\":%d,\"iv\":\"%s\"}\n",
+                            id, tid, r.x.c_str(), r.got.c_str(), r.want.c_str(), iv[k].kind, vf::int_str(v).c_str());
+            }
+        }
+    }
+    std::printf("S {\"inst\":%d,\"tgt\":%d,\"evals\":%llu,\"viol\":%llu,\"skipped\":%llu}\n", id, tid, evals, viol, skipped);
+    std::fflush(stdout);
+}
+template <typename D, typename T, unsigned long long N, unsigned long long Dn>
+struct ImplicitTarget {
+    typedef typename D::rep R;
+    typedef typename T::Rep TR;
+    static void one(int kind, i128 v, bool describe, TgtRes &r) {
+        constexpr bool RI = std::is_integral<R>::value, TI = std::is_integral<TR>::value;
+        const R x = kind ? from_bits(v, R{}) : from_int<R>(v);
+        r.skipped = true; r.bad = false;
+        i128 exact = 0;
+        if (TI) {
+            if (!RI || Dn != 1) return;
+            exact = (i128)x * (i128)N;
+            if (!Fits<TR>::ok(exact)) return;
+        }
+        r.skipped = false;
+        const D d{x};
+        const T t = d;
+        const T t2 = au::as_quantity(d);
+        const TR a = t.in(typename T::Unit{}), b = t2.in(typename T::Unit{});
+        r.bad = !same(a, b) || (TI && (i128)a != exact);
+        if (describe) { r.x = vstr(x); r.got = vstr(a); r.want = TI && same(a, b) ? vf::int_str(exact) : vstr(b); }
+    }
+    static void run(int id, int tid, const Iv *iv, int niv) { implicit_target_loop(&one, id, tid, iv, niv); }
+};
+
 // ---- (c): mixed duration/quantity operations on one ordered pair -----------------------------
-template <typename C, bool FP = std::is_floating_point<C>::value>
-struct Dom {   // integral common rep: "chrono does not overflow" == exact value fits C
-    static bool ok(i128 v) {
-        return v >= (i128)std::numeric_limits<C>::min() && v <= (i128)std::numeric_limits<C>::max();
-    }
+// Only Mixed<>::observe touches the implementation and chrono (one instantiation per ordered pair);
+// the enumeration and all judging is ordinary non-template code on plain data (counts travel as
+// long double, which holds every int64_t / float / double value exactly, NaN, inf and -0.0 included).
+struct RepInfo { bool fp; int digits; i128 lo, hi; };   // [lo, hi]: where the rep holds every integer exactly
+template <typename R, bool FP = std::is_floating_point<R>::value>
+struct Lim {
+    static RepInfo get() { RepInfo r = {false, std::numeric_limits<R>::digits, (i128)std::numeric_limits<R>::min(), (i128)std::numeric_limits<R>::max()}; return r; }
 };
-template <typename C>
-struct Dom<C, true> {   // floating common rep: exact value representable (odd part below 2^digits)
-    static bool ok(i128 v) {
-        u128 a = v < 0 ? (u128)(-v) : (u128)v;
-        if (a == 0) return true;
-        while (!(a & 1)) a >>= 1;
-        return a < ((u128)1 << std::numeric_limits<C>::digits);
-    }
+template <typename R>
+struct Lim<R, true> {
+    static RepInfo get() { RepInfo r = {true, std::numeric_limits<R>::digits, -((i128)1 << std::numeric_limits<R>::digits), (i128)1 << std::numeric_limits<R>::digits}; return r; }
 };
+inline bool odd_part_fits(i128 v, int digits) {
+    u128 a = v < 0 ? (u128)(-v) : (u128)v;
+    if (a == 0) return true;
+    while (!(a & 1)) a >>= 1;
+    return a < ((u128)1 << digits);
+}
+// integral common rep: "chrono does not overflow" == the exact value fits; floating: == it is representable
+inline bool exact_ok(const RepInfo &c, i128 v) { return c.fp ? odd_part_fits(v, c.digits) : (v >= c.lo && v <= c.hi); }
+// can an operand of this rep hold the integer v exactly (and as a long long)?
+inline bool fits_rep(const RepInfo &r, i128 v) {
+    return r.fp ? (v > -((i128)1 << 62) && v < ((i128)1 << 62) && odd_part_fits(v, r.digits)) : (v >= r.lo && v <= r.hi);
+}
+inline bool ld_nan(long double x) { return x != x; }
+inline bool ld_inf(long double x) { return x == std::numeric_limits<long double>::infinity() || x == -std::numeric_limits<long double>::infinity(); }
+inline std::string ldstr(const RepInfo &r, long double v) {
+    char b[64];
+    if (!r.fp) std::snprintf(b, sizeof b, "%lld", (long long)v);
+    else std::snprintf(b, sizeof b, r.digits == 24 ? "%.9g" : "%.17g", (double)v);
+    return b;
+}
 
 template <typename R> struct Bnd;
 template <> struct Bnd<std::int32_t> { static const long long *v() { static const long long a[9] = {INT32_MIN, INT32_MIN + 1, -(1LL << 30), -1, 0, 1, 1LL << 30, INT32_MAX - 1, INT32_MAX}; return a; } };
@@ -233,115 +398,293 @@ template <> struct Bnd<std::int64_t> { static const long long *v() { static cons
 template <> struct Bnd<float> { static const long long *v() { static const long long a[9] = {-(1LL << 24) - 2, -(1LL << 24), -(1LL << 24) + 1, -1, 0, 1, (1LL << 24) - 1, 1LL << 24, (1LL << 24) + 2}; return a; } };
 template <> struct Bnd<double> { static const long long *v() { static const long long a[9] = {-(1LL << 53) - 2, -(1LL << 53), -(1LL << 53) + 1, -1, 0, 1, (1LL << 53) - 1, 1LL << 53, (1LL << 53) + 2}; return a; } };
 
+// Threshold-edge alphabet (enumerated, not sampled): with [lo, hi] the range in which the common rep
+// holds exact values and K1, K2 the integer factors to the common period,
+//   E(K) = {hi/K, -(hi/K), lo/K} + {-1, 0, +1},  A = E(K1) u {0, +-1, +-(hi/K1)/2},  B likewise with K2;
+// all of A x B, and for every a in A (b in B) the partners that put a*K1 + b*K2 resp. a*K1 - b*K2
+// within one step of hi or lo.  Elements that do not fit the operand's rep exactly are dropped.
+inline void side_alphabet(i128 lo, i128 hi, long long K, std::vector<i128> &out) {
+    const i128 e[3] = {hi / K, -(hi / K), lo / K};
+    for (int i = 0; i < 3; ++i) for (int d = -1; d <= 1; ++d) out.push_back(e[i] + d);
+    out.push_back(0); out.push_back(1); out.push_back(-1);
+    out.push_back(hi / K / 2); out.push_back(-(hi / K / 2));
+}
+inline void edge_pairs(i128 lo, i128 hi, long long K1, long long K2, std::vector<std::pair<i128, i128> > &out) {
+    std::vector<i128> A, B;
+    side_alphabet(lo, hi, K1, A);
+    side_alphabet(lo, hi, K2, B);
+    for (size_t i = 0; i < A.size(); ++i) for (size_t j = 0; j < B.size(); ++j) out.push_back(std::make_pair(A[i], B[j]));
+    const i128 T[2] = {hi, lo};
+    for (int t = 0; t < 2; ++t) for (int d = -1; d <= 1; ++d) {
+        for (size_t i = 0; i < A.size(); ++i) {
+            out.push_back(std::make_pair(A[i], (T[t] - A[i] * K1) / K2 + d));      // a*K1 + b*K2 ~ T
+            out.push_back(std::make_pair(A[i], (A[i] * K1 - T[t]) / K2 + d));      // a*K1 - b*K2 ~ T
+        }
+        for (size_t j = 0; j < B.size(); ++j) {
+            out.push_back(std::make_pair((T[t] - B[j] * K2) / K1 + d, B[j]));
+            out.push_back(std::make_pair((T[t] + B[j] * K2) / K1 + d, B[j]));
+        }
+    }
+}
+
+// Second value alphabet for pairs whose common rep is floating: enumerated bit patterns / values
+// (generated, see fp_alphabet() in c17_gen.py); judged against chrono alone.
+template <typename R> struct FpAl;
+//@FPAL@
+
+// everything the implementation and chrono say about one pair of durations
+struct Obs {
+    bool x[6], l[6], r[6], m[6];     // chrono; duration op quantity; quantity op duration; quantity op quantity
+    long double xc[2], au[2][2];     // [sum|difference] inside chrono; [sum|difference][dq|qd] count of as_chrono_duration(result)
+    bool eq[2][2];                   // as_chrono_duration(result) == chrono's result, compared as durations
+    long double a, b, c1, c2;        // FpAl path: the two counts and chrono's own conversions of them to the common type
+};
+struct Pair {
+    RepInfo r1, r2, c;
+    long long K1, K2;
+    const long long *bnd1, *bnd2;
+    int n1, n2, sum_type_same;
+    void (*obs_int)(long long, long long, bool, bool, Obs &);
+    void (*obs_fp)(int, int, Obs &);
+};
 struct MStats {
     unsigned long long evals = 0, ops = 0, skip_conv = 0, skip_arith = 0, band = 0, band_disagree = 0,
-                       oracle_disagree = 0, viol = 0, qq_disagree = 0;
+                       oracle_disagree = 0, viol = 0, qq_disagree = 0, edge = 0, edge_dropped = 0,
+                       fp_evals = 0, fp_ops = 0, fp_ovf = 0, fp_ovf_disagree = 0, fp_nan_dc = 0, fp_nan_dc_disagree = 0,
+                       fp_nan_demanded = 0, fp_zero_sign_diff = 0;
     unsigned seen_true = 0, seen_false = 0;
-    int shown[16] = {0};
+    int shown[64] = {0};
 };
+static const char *const OPNAME[8] = {"==", "!=", "<", "<=", ">", ">=", "+", "-"};
+
+// kind 0 "mixed", 1 "mixed-band" (sa, sb = the integer counts), 2 "mixed-fp" (ra, rb = FpAl indices)
+inline void emit(int id, MStats &st, int kind, int op, int form, const std::string &sa, const std::string &sb,
+                 long long ra, long long rb, const std::string &au, const std::string &chrono, const std::string &exact) {
+    static const char *KIND[3] = {"mixed", "mixed-band", "mixed-fp"};
+    ++st.viol;
+    if (st.shown[kind * 16 + op * 2 + form]++ < 2)
+        std::printf("V {\"inst\":%d,\"kind\":\"%s\",\"op\":\"%s\",\"form\":\"%s\",\"a\":\"%s\",\"b\":\"%s\",\"ra\":\"%lld\",\"rb\":\"%lld\","
+                    "\"au\":\"%s\",\"chrono\":\"%s\",\"exact\":\"%s\"}\n", id, KIND[kind], OPNAME[op], form ? "qd" : "dq",
+                    sa.c_str(), sb.c_str(), ra, rb, au.c_str(), chrono.c_str(), exact.c_str());
+}
+inline const char *tf(bool b) { return b ? "true" : "false"; }
+
+// integer-valued counts: chrono and the exact 128-bit oracle
+inline void visit(const Pair &p, int id, MStats &st, long long a, long long b) {
+    const i128 v1 = (i128)a * p.K1, v2 = (i128)b * p.K2;
+    ++st.evals;
+    bool band = false;
+    if (!(exact_ok(p.c, v1) && exact_ok(p.c, v2))) {
+        if (!p.c.fp) { ++st.skip_conv; return; }   // chrono's common_type conversion overflows: not executed
+        band = true;                               // chrono's own conversion rounds (it does not overflow): still demanded
+    }
+    st.band += band;
+    const i128 ex[2] = {v1 + v2, v1 - v2};
+    const bool dom[2] = {exact_ok(p.c, ex[0]), exact_ok(p.c, ex[1])};
+    Obs o;
+    p.obs_int(a, b, p.c.fp || dom[0], p.c.fp || dom[1], o);
+    const bool e[6] = {v1 == v2, v1 != v2, v1 < v2, v1 <= v2, v1 > v2, v1 >= v2};
+    for (int k = 0; k < 6; ++k) {
+        st.ops += 2;
+        if (!band) {
+            if (o.x[k] != e[k]) ++st.oracle_disagree;
+            st.qq_disagree += (o.m[k] != o.x[k]);
+            (o.x[k] ? st.seen_true : st.seen_false) |= 1u << k;
+        } else {
+            st.band_disagree += (o.l[k] != o.x[k]) + (o.r[k] != o.x[k]);
+        }
+        if (o.l[k] != o.x[k]) emit(id, st, band, k, 0, vf::int_str(a), vf::int_str(b), a, b, tf(o.l[k]), tf(o.x[k]), tf(e[k]));
+        if (o.r[k] != o.x[k]) emit(id, st, band, k, 1, vf::int_str(a), vf::int_str(b), a, b, tf(o.r[k]), tf(o.x[k]), tf(e[k]));
+    }
+    for (int k = 0; k < 2; ++k) {
+        bool bnd = band;
+        if (!dom[k]) {
+            if (!p.c.fp) { ++st.skip_arith; continue; }
+            bnd = true;
+        }
+        if (!bnd && !((i128)o.xc[k] == ex[k])) ++st.oracle_disagree;
+        for (int f = 0; f < 2; ++f) {
+            ++st.ops;
+            const bool agree = o.eq[k][f] || (ld_nan(o.au[k][f]) && ld_nan(o.xc[k]));
+            if (bnd) st.band_disagree += !agree;
+            if (!agree) emit(id, st, bnd, 6 + k, f, vf::int_str(a), vf::int_str(b), a, b, ldstr(p.c, o.au[k][f]), ldstr(p.c, o.xc[k]), vf::int_str(ex[k]));
+        }
+    }
+}
+
+// enumerated floating / boundary counts: chrono alone is the reference
+inline void visit_fp(const Pair &p, int id, MStats &st, int ia, int ib) {
+    Obs o;
+    p.obs_fp(ia, ib, o);
+    ++st.fp_evals;
+    const bool ovf = (ld_inf(o.c1) && !ld_inf(o.a)) || (ld_inf(o.c2) && !ld_inf(o.b));   // chrono overflowed: don't care
+    const bool nanop = ld_nan(o.c1) || ld_nan(o.c2);
+    for (int k = 0; k < 6; ++k) {
+        st.fp_ops += 2;
+        const int dis = (o.l[k] != o.x[k]) + (o.r[k] != o.x[k]);
+        // libstdc++ derives <= and >= from < by negation, so with a NaN count chrono answers true
+        // where the IEEE comparison is false: counted don't-care
+        if (nanop && (k == 3 || k == 5)) { st.fp_nan_dc += 2; st.fp_nan_dc_disagree += dis; continue; }
+        if (ovf) { st.fp_ovf += 2; st.fp_ovf_disagree += dis; continue; }
+        st.fp_nan_demanded += nanop ? 2 : 0;
+        if (o.l[k] != o.x[k]) emit(id, st, 2, k, 0, ldstr(p.r1, o.a), ldstr(p.r2, o.b), ia, ib, tf(o.l[k]), tf(o.x[k]), "-");
+        if (o.r[k] != o.x[k]) emit(id, st, 2, k, 1, ldstr(p.r1, o.a), ldstr(p.r2, o.b), ia, ib, tf(o.r[k]), tf(o.x[k]), "-");
+    }
+    for (int k = 0; k < 2; ++k)
+        for (int f = 0; f < 2; ++f) {
+            st.fp_ops += 1;
+            const bool bothnan = ld_nan(o.au[k][f]) && ld_nan(o.xc[k]);
+            const bool agree = bothnan || (o.au[k][f] == o.xc[k] && o.eq[k][f]);
+            const bool ovs = ovf || (ld_inf(o.xc[k]) && !ld_inf(o.c1) && !ld_inf(o.c2));
+            if (ovs) { ++st.fp_ovf; st.fp_ovf_disagree += !agree; continue; }
+            st.fp_nan_demanded += nanop ? 1 : 0;
+            if (agree && !bothnan && std::signbit(o.au[k][f]) != std::signbit(o.xc[k])) ++st.fp_zero_sign_diff;
+            if (!agree) emit(id, st, 2, 6 + k, f, ldstr(p.r1, o.a), ldstr(p.r2, o.b), ia, ib, ldstr(p.c, o.au[k][f]), ldstr(p.c, o.xc[k]), "-");
+        }
+}
+
+// mode 0: all alphabets; 1: the single integer pair (one_a, one_b); 2: the single FpAl pair (indices)
+inline void run_pair(const Pair &p, int id, int lo8, int hi8, long long one_a, long long one_b, int mode) {
+    MStats st;
+    if (mode == 1) {
+        visit(p, id, st, one_a, one_b);
+    } else if (mode == 2) {
+        visit_fp(p, id, st, (int)one_a, (int)one_b);
+    } else {
+        for (int a = lo8; a <= hi8; ++a)
+            for (int b = lo8; b <= hi8; ++b) visit(p, id, st, a, b);
+        for (int i = 0; i < 9; ++i)
+            for (int j = 0; j < 9; ++j) visit(p, id, st, p.bnd1[i], p.bnd2[j]);
+        std::vector<std::pair<i128, i128> > ep;
+        edge_pairs(p.c.lo, p.c.hi, p.K1, p.K2, ep);
+        for (size_t i = 0; i < ep.size(); ++i) {
+            if (!fits_rep(p.r1, ep[i].first) || !fits_rep(p.r2, ep[i].second)) { ++st.edge_dropped; continue; }
+            ++st.edge;
+            visit(p, id, st, (long long)ep[i].first, (long long)ep[i].second);
+        }
+        if (p.c.fp)
+            for (int i = 0; i < p.n1; ++i)
+                for (int j = 0; j < p.n2; ++j) visit_fp(p, id, st, i, j);
+    }
+    std::printf("S {\"inst\":%d,\"evals\":%llu,\"ops\":%llu,\"skip_conv\":%llu,\"skip_arith\":%llu,\"band\":%llu,"
+                "\"band_disagree\":%llu,\"oracle_disagree\":%llu,\"viol\":%llu,\"seen_true\":%u,\"seen_false\":%u,"
+                "\"sum_type_same\":%d,\"qq_disagree\":%llu,\"edge\":%llu,\"edge_dropped\":%llu,\"fp_evals\":%llu,\"fp_ops\":%llu,"
+                "\"fp_ovf\":%llu,\"fp_ovf_disagree\":%llu,\"fp_nan_dc\":%llu,\"fp_nan_dc_disagree\":%llu,\"fp_nan_demanded\":%llu,"
+                "\"fp_zero_sign_diff\":%llu}\n", id, st.evals, st.ops, st.skip_conv, st.skip_arith, st.band,
+                st.band_disagree, st.oracle_disagree, st.viol, st.seen_true, st.seen_false,
+                p.sum_type_same, st.qq_disagree, st.edge, st.edge_dropped, st.fp_evals, st.fp_ops,
+                st.fp_ovf, st.fp_ovf_disagree, st.fp_nan_dc, st.fp_nan_dc_disagree, st.fp_nan_demanded, st.fp_zero_sign_diff);
+    std::fflush(stdout);
+}
 
 template <typename D1, typename D2, long long K1, long long K2>
 struct Mixed {
     typedef typename D1::rep R1;
     typedef typename D2::rep R2;
     typedef typename std::common_type<R1, R2>::type C;
-    static constexpr bool CFP = std::is_floating_point<C>::value;
+    typedef typename std::common_type<D1, D2>::type CT;
 
-    static void emit(int id, MStats &st, int op, const char *form, long long a, long long b,
-                     const std::string &au, const std::string &chrono, const std::string &exact) {
-        static const char *OPS[8] = {"==", "!=", "<", "<=", ">", ">=", "+", "-"};
-        ++st.viol;
-        const int slot = op * 2 + (form[0] == 'q');
-        if (st.shown[slot]++ < 2)
-            std::printf("V {\"inst\":%d,\"kind\":\"mixed\",\"op\":\"%s\",\"form\":\"%s\",\"a\":\"%lld\",\"b\":\"%lld\","
-                        "\"au\":\"%s\",\"chrono\":\"%s\",\"exact\":\"%s\"}\n", id, OPS[op], form, a, b,
-                        au.c_str(), chrono.c_str(), exact.c_str());
-    }
-
-    template <typename A, typename X>
-    static void arith(int id, MStats &st, int op, const char *form, long long a, long long b, bool band,
-                      A au_result, X xc, i128 exact) {
-        const auto acd = au::as_chrono_duration(au_result);
-        const bool agree = (acd == xc) || (isnan_(acd.count(), std::is_floating_point<C>{}) &&
-                                           isnan_(xc.count(), std::is_floating_point<C>{}));
-        ++st.ops;
-        if (band) { st.band_disagree += !agree; return; }
-        if (!agree) emit(id, st, op, form, a, b, vstr(acd.count()), vstr(xc.count()), vf::int_str(exact));
-    }
-
-    static void visit(int id, MStats &st, long long a, long long b) {
-        const D1 d1{static_cast<R1>(a)};
-        const D2 d2{static_cast<R2>(b)};
-        const i128 v1 = (i128)a * K1, v2 = (i128)b * K2;
-        ++st.evals;
-        bool band = false;
-        if (!(Dom<C>::ok(v1) && Dom<C>::ok(v2))) {
-            if (!CFP) { ++st.skip_conv; return; }   // chrono's common_type conversion overflows: not executed
-            band = true;                             // chrono's own conversion rounds: don't-care band
-        }
-        st.band += band;
+    __attribute__((noinline)) static void observe(const D1 &d1, const D2 &d2, bool do_sum, bool do_dif, Obs &o) {
         const auto q1 = au::as_quantity(d1);
         const auto q2 = au::as_quantity(d2);
-        const bool e[6] = {v1 == v2, v1 != v2, v1 < v2, v1 <= v2, v1 > v2, v1 >= v2};
         const bool x[6] = {d1 == d2, d1 != d2, d1 < d2, d1 <= d2, d1 > d2, d1 >= d2};
         const bool l[6] = {d1 == q2, d1 != q2, d1 < q2, d1 <= q2, d1 > q2, d1 >= q2};
         const bool r[6] = {q1 == d2, q1 != d2, q1 < d2, q1 <= d2, q1 > d2, q1 >= d2};
         const bool m[6] = {q1 == q2, q1 != q2, q1 < q2, q1 <= q2, q1 > q2, q1 >= q2};   // info only (C08's business)
-        for (int k = 0; k < 6; ++k) {
-            st.ops += 2;
-            if (band) { st.band_disagree += (l[k] != x[k]) + (r[k] != x[k]); continue; }
-            if (x[k] != e[k]) ++st.oracle_disagree;
-            st.qq_disagree += (m[k] != x[k]);
-            (x[k] ? st.seen_true : st.seen_false) |= 1u << k;
-            if (l[k] != x[k]) emit(id, st, k, "dq", a, b, l[k] ? "true" : "false", x[k] ? "true" : "false", e[k] ? "true" : "false");
-            if (r[k] != x[k]) emit(id, st, k, "qd", a, b, r[k] ? "true" : "false", x[k] ? "true" : "false", e[k] ? "true" : "false");
+        for (int k = 0; k < 6; ++k) { o.x[k] = x[k]; o.l[k] = l[k]; o.r[k] = r[k]; o.m[k] = m[k]; }
+        if (do_sum) {
+            const auto xc = d1 + d2;
+            const auto a = au::as_chrono_duration(d1 + q2);
+            const auto b = au::as_chrono_duration(q1 + d2);
+            o.xc[0] = xc.count(); o.au[0][0] = a.count(); o.au[0][1] = b.count();
+            o.eq[0][0] = (a == xc); o.eq[0][1] = (b == xc);
         }
-        const i128 s = v1 + v2, t = v1 - v2;
-        for (int k = 6; k < 8; ++k) {
-            const i128 ex = k == 6 ? s : t;
-            bool bnd = band;
-            if (!Dom<C>::ok(ex)) {
-                if (!CFP) { ++st.skip_arith; continue; }
-                bnd = true;
-            }
-            if (k == 6) {
-                const auto xc = d1 + d2;
-                if (!bnd && !((i128)xc.count() == ex)) ++st.oracle_disagree;
-                arith(id, st, k, "dq", a, b, bnd, d1 + q2, xc, ex);
-                arith(id, st, k, "qd", a, b, bnd, q1 + d2, xc, ex);
-            } else {
-                const auto xc = d1 - d2;
-                if (!bnd && !((i128)xc.count() == ex)) ++st.oracle_disagree;
-                arith(id, st, k, "dq", a, b, bnd, d1 - q2, xc, ex);
-                arith(id, st, k, "qd", a, b, bnd, q1 - d2, xc, ex);
-            }
+        if (do_dif) {
+            const auto xc = d1 - d2;
+            const auto a = au::as_chrono_duration(d1 - q2);
+            const auto b = au::as_chrono_duration(q1 - d2);
+            o.xc[1] = xc.count(); o.au[1][0] = a.count(); o.au[1][1] = b.count();
+            o.eq[1][0] = (a == xc); o.eq[1][1] = (b == xc);
         }
     }
-
-    static void run(int id, int lo8, int hi8, long long one_a, long long one_b, bool single) {
-        MStats st;
-        if (single) {
-            visit(id, st, one_a, one_b);
-        } else {
-            for (int a = lo8; a <= hi8; ++a)
-                for (int b = lo8; b <= hi8; ++b) visit(id, st, a, b);
-            for (int i = 0; i < 9; ++i)
-                for (int j = 0; j < 9; ++j) visit(id, st, Bnd<R1>::v()[i], Bnd<R2>::v()[j]);
-        }
+    static void obs_int(long long a, long long b, bool do_sum, bool do_dif, Obs &o) {
+        observe(D1{static_cast<R1>(a)}, D2{static_cast<R2>(b)}, do_sum, do_dif, o);
+    }
+    static void obs_fp(int ia, int ib, Obs &o) {
+        const R1 a = FpAl<R1>::get(ia);
+        const R2 b = FpAl<R2>::get(ib);
+        const D1 d1{a};
+        const D2 d2{b};
+        o.a = a; o.b = b;
+        o.c1 = CT(d1).count(); o.c2 = CT(d2).count();      // chrono's own conversions to the common type
+        observe(d1, d2, true, true, o);
+    }
+    static void run(int id, int lo8, int hi8, long long one_a, long long one_b, int mode) {
         typedef decltype(std::declval<D1>() + std::declval<D2>()) XC;
         typedef decltype(au::as_chrono_duration(std::declval<D1>() + au::as_quantity(std::declval<D2>()))) AC;
         (void)sizeof(au::as_quantity(std::declval<D1>()) + au::as_quantity(std::declval<D2>()));
         (void)sizeof(au::as_quantity(std::declval<D1>()) - au::as_quantity(std::declval<D2>()));
-        std::printf("S {\"inst\":%d,\"evals\":%llu,\"ops\":%llu,\"skip_conv\":%llu,\"skip_arith\":%llu,\"band\":%llu,"
-                    "\"band_disagree\":%llu,\"oracle_disagree\":%llu,\"viol\":%llu,\"seen_true\":%u,\"seen_false\":%u,"
-                    "\"sum_type_same\":%d,\"qq_disagree\":%llu}\n", id, st.evals, st.ops, st.skip_conv, st.skip_arith, st.band,
-                    st.band_disagree, st.oracle_disagree, st.viol, st.seen_true, st.seen_false,
-                    (int)std::is_same<XC, AC>::value, st.qq_disagree);
-        std::fflush(stdout);
+        Pair p = {Lim<R1>::get(), Lim<R2>::get(), Lim<C>::get(), K1, K2, Bnd<R1>::v(), Bnd<R2>::v(), FpAl<R1>::n, FpAl<R2>::n,
+                  (int)std::is_same<XC, AC>::value, &obs_int, &obs_fp};
+        run_pair(p, id, lo8, hi8, one_a, one_b, mode);
     }
 };
 }  // namespace c17
 '''
+
+
+# ------------------------------------------------------------------ value alphabet for (c), floating common rep
+def float_bits(x, rep):
+    import struct
+    return struct.unpack("<I", struct.pack("<f", x))[0] if rep == "float" else \
+        struct.unpack("<Q", struct.pack("<d", x))[0]
+
+
+FP_VALUES = [0.0, -0.0, 0.1, -0.1, 1e-3, 0.5, 1.0 / 3, 1.0, 1.5, 2.5, 3.0, -7.0, 1000.0, 1000.5, 123456.789,
+             -2.718281828459045, 2.0 ** 24 - 1, 2.0 ** 24, 2.0 ** 24 + 2, 1e10, 2.0 ** 53, 2.0 ** 53 + 2, 1e30]
+
+
+def fp_alphabet(rep):
+    '''Enumerated counts for a floating rep (bit patterns), or boundary integers for an integral rep
+    that meets a floating one.  -> (list of ints, list of human-readable descriptions)'''
+    if rep in FP:
+        bits = 32 if rep == "float" else 64
+        mant = 23 if rep == "float" else 52
+        sign = 1 << (bits - 1)
+        inf = float_bits(float("inf"), rep)
+        one = float_bits(1.0, rep)
+        pats = [(float_bits(v, rep), repr(v)) for v in FP_VALUES]
+        pats += [(1, "denorm_min"), (sign | 1, "-denorm_min"), ((1 << mant) - 1, "largest denormal"),
+                 (1 << mant, "smallest normal"), (one + 1, "1+ulp"), (one - 1, "1-ulp/2"),
+                 (inf - 1, "max"), (sign | (inf - 1), "-max"), (inf - 1 - (1 << mant), "max/2"),
+                 (inf, "+inf"), (sign | inf, "-inf"), (inf | (1 << (mant - 1)), "quiet NaN"),
+                 (sign | inf | (1 << (mant - 1)) | 5, "-NaN with payload"), (inf + 1, "signalling NaN")]
+        return [p for p, _ in pats], [n for _, n in pats]
+    lo, hi = core.tmin(rep), core.tmax(rep)
+    v = [0, 1, -1, 3, -3, 7, 1000, 2 ** 24 + 1, -(2 ** 24 + 1), hi, lo, hi - 1, hi // 2, hi // 3]
+    if rep == "int64_t":
+        v += [2 ** 53 + 1, -(2 ** 53 + 1)]
+    return v, [str(x) for x in v]
+
+
+def fpal_cpp():
+    out = []
+    for rep in REPS:
+        vals, _ = fp_alphabet(rep)
+        if rep in FP:
+            ut = "std::uint32_t" if rep == "float" else "std::uint64_t"
+            out.append("template <> struct FpAl<%s> { static constexpr int n = %d; static %s get(int i) { "
+                       "static const %s b[] = {%s}; return from_bits((i128)b[i], %s{}); } };"
+                       % (rep, len(vals), rep, ut, ", ".join("%dULL" % v for v in vals), rep))
+        else:
+            out.append("template <> struct FpAl<std::%s> { static constexpr int n = %d; static std::%s get(int i) { "
+                       "static const long long b[] = {%s}; return static_cast<std::%s>(b[i]); } };"
+                       % (rep, len(vals), rep, ", ".join(ll(v) for v in vals), rep))
+    return "\n".join(out)
+
+
+def harness():
+    return HARNESS.replace("//@FPAL@", fpal_cpp())
 
 
 def lit128(v):
@@ -354,29 +697,57 @@ def lit128(v):
     raise ValueError(v)
 
 
-def emit_roundtrip_tu(path, insts, ivs):
-    """insts: [(id, Dur)]; ivs: id -> [(kind, lo, hi)]."""
-    out = [HARNESS, "namespace {"]
+def emit_roundtrip_tu(path, insts, ivs, tg=None, ivt=None, only_target=None):
+    """insts: [(id, Dur)]; ivs: id -> [(kind, lo, hi)]; tg: id -> [(tid, target cpp, N, Dn)] = the
+    implicitly accepted targets of that duration with Period / target unit = N/Dn; ivt: id -> the
+    intervals for those.  only_target = tid: replay of one (duration, target) only."""
+    tg, ivt = tg or {}, ivt or {}
+    out = [harness(), "namespace {"]
     for i, d in insts:
         out.append("static const c17::Iv IV%d[] = {%s};" % (
             i, ", ".join("{%d, %s, %s}" % (k, lit128(a), lit128(b)) for k, a, b in ivs[i])))
+        if tg.get(i):
+            out.append("static const c17::Iv IT%d[] = {%s};" % (
+                i, ", ".join("{%d, %s, %s}" % (k, lit128(a), lit128(b)) for k, a, b in ivt[i])))
     out += ["}", "int main(int argc, char **argv) {",
             "  int part = argc > 1 ? std::atoi(argv[1]) : 0, nparts = argc > 2 ? std::atoi(argv[2]) : 1, k = 0;"]
     for i, d in insts:
-        out.append("  if (k++ %% nparts == part) c17::roundtrip<%s>(%d, IV%d, %d);" % (d.cpp, i, i, len(ivs[i])))
+        if only_target is None:
+            out.append("  if (k++ %% nparts == part) c17::roundtrip<%s>(%d, IV%d, %d);" % (d.cpp, i, i, len(ivs[i])))
+        for tid, tq, n, dn in tg.get(i, []):
+            if only_target is None or only_target == tid:
+                out.append("  if (k++ %% nparts == part) c17::ImplicitTarget<%s, %s, %dULL, %dULL>::run(%d, %d, IT%d, %d);"
+                           % (d.cpp, tq, n, dn, i, tid, i, len(ivt[i])))
     out.append("  return 0; }")
     with open(path, "w") as f:
         f.write("\n".join(out) + "\n")
 
 
-def emit_mixed_tu(path, insts, lo8=-128, hi8=127, single=None):
-    """insts: [(id, Dur a, Dur b)]; single = (x, y) runs exactly one value pair (replay)."""
-    out = [HARNESS, "int main() {"]
+def emit_roundtrip_slices_tu(path, insts, ivs):
+    """One call of roundtrip<D> per interval (slice); run as `exe k n` to execute slice k of n only."""
+    out = [harness(), "namespace {"]
+    for i, d in insts:
+        for k, (kind, a, b) in enumerate(ivs[i]):
+            out.append("static const c17::Iv IS%d_%d[] = {{%d, %s, %s}};" % (i, k, kind, lit128(a), lit128(b)))
+    out += ["}", "int main(int argc, char **argv) {",
+            "  int part = argc > 1 ? std::atoi(argv[1]) : 0, nparts = argc > 2 ? std::atoi(argv[2]) : 1, k = 0;"]
+    for i, d in insts:
+        for k in range(len(ivs[i])):
+            out.append("  if (k++ %% nparts == part) c17::roundtrip<%s>(%d, IS%d_%d, 1);" % (d.cpp, i, i, k))
+    out.append("  return 0; }")
+    with open(path, "w") as f:
+        f.write("\n".join(out) + "\n")
+
+
+def emit_mixed_tu(path, insts, lo8=-128, hi8=127, single=None, single_fp=None):
+    """insts: [(id, Dur a, Dur b)]; single = (x, y) runs exactly one integer value pair, single_fp =
+    (ia, ib) exactly one pair of the enumerated floating alphabet (replay)."""
+    out = [harness(), "int main() {"]
     for i, a, b in insts:
         _, k1, k2 = pair_factors(a, b)
-        sa, sb = single if single else (0, 0)
-        out.append("  c17::Mixed<%s, %s, %dLL, %dLL>::run(%d, %d, %d, %s, %s, %s);" % (
-            a.cpp, b.cpp, k1, k2, i, lo8, hi8, ll(sa), ll(sb), "true" if single else "false"))
+        sa, sb = single or single_fp or (0, 0)
+        out.append("  c17::Mixed<%s, %s, %dLL, %dLL>::run(%d, %d, %d, %s, %s, %d);" % (
+            a.cpp, b.cpp, k1, k2, i, lo8, hi8, ll(sa), ll(sb), 1 if single else 2 if single_fp else 0))
     out.append("  return 0; }")
     with open(path, "w") as f:
         f.write("\n".join(out) + "\n")
@@ -387,13 +758,7 @@ def ll(v):
 
 
 # ------------------------------------------------------------------ value alphabets for (a)/(b)
-def float_bits(x, rep):
-    import struct
-    return struct.unpack("<I", struct.pack("<f", x))[0] if rep == "float" else \
-        struct.unpack("<Q", struct.pack("<d", x))[0]
-
-
-def roundtrip_intervals(rep, w, full32=False):
+def roundtrip_intervals(rep, w):
     """All 16-bit values placed in the rep + windows of radius w around 0, +-1, rep min / max.
     Integral reps: numeric windows.  Floating reps: numeric 16-bit values, then windows of w
     consecutive *bit patterns* (nextafter steps) around +-0, +-1, +-max (reaching inf and the first
@@ -401,8 +766,6 @@ def roundtrip_intervals(rep, w, full32=False):
     iv = [(0, -32768, 65535)]
     if rep in FP:
         bits = 32 if rep == "float" else 64
-        if full32 and bits == 32:
-            return iv + [(1, 0, 2 ** 32 - 1)]
         sign = 1 << (bits - 1)
         inf = float_bits(float("inf"), rep)
         pts = [0, float_bits(1.0, rep), inf, float_bits(float(2 ** DIGITS[rep]), rep),
@@ -422,8 +785,6 @@ def roundtrip_intervals(rep, w, full32=False):
                 merged.append((a, b))
         return iv + [(1, a, b) for a, b in merged]
     lo, hi = core.tmin(rep), core.tmax(rep)
-    if full32 and rep == "int32_t":
-        return [(0, lo, hi)]
     raw = sorted([(lo, lo + w), (hi - w, hi), (-w, w)] + [(-32768, 65535)])
     merged = []
     for a, b in raw:
